@@ -544,15 +544,18 @@ impl Encode for Modification {
     fn encode(&self, w: &mut Writer) -> Result<(), Error> {
         match self {
             Modification::Deletion(radicle_surf::diff::Deletion { line, .. }) => {
-                let s = format!("-{}", String::from_utf8_lossy(line.as_bytes()).trim_end());
+                let line = String::from_utf8_lossy(line.as_bytes());
+                let s = format!("-{}", line.trim_end_matches('\n'));
                 w.write(s, term::Style::new(term::Color::Red))?;
             }
             Modification::Addition(radicle_surf::diff::Addition { line, .. }) => {
-                let s = format!("+{}", String::from_utf8_lossy(line.as_bytes()).trim_end());
+                let line = String::from_utf8_lossy(line.as_bytes());
+                let s = format!("+{}", line.trim_end_matches('\n'));
                 w.write(s, term::Style::new(term::Color::Green))?;
             }
             Modification::Context { line, .. } => {
-                let s = format!(" {}", String::from_utf8_lossy(line.as_bytes()).trim_end());
+                let line = String::from_utf8_lossy(line.as_bytes());
+                let s = format!(" {}", line.trim_end_matches('\n'));
                 w.write(s, term::Style::default().dim())?;
             }
         }
